@@ -85,6 +85,18 @@ struct Div<false> {
     static auto of(A a, B b) { return a / au::unblock_int_div(b); }
 };
 
+// plain `scalar / quantity`: compiles unless both the scalar and the rep are integral (then the guard asks for unblock_int_div)
+template <typename R1, typename Q2, bool Plain = !(std::is_integral<R1>::value && std::is_integral<typename Q2::Rep>::value)>
+struct ScalarOver {
+    static constexpr bool available = true;
+    static auto of(R1 a, Q2 q) { return a / q; }
+};
+template <typename R1, typename Q2>
+struct ScalarOver<R1, Q2, false> {
+    static constexpr bool available = false;
+    static auto of(R1 a, Q2 q) { return a / au::unblock_int_div(q); }
+};
+
 template <typename U1, typename R1, typename U2, typename R2, bool PlainDiv>
 __attribute__((noinline)) void run_pair(long id, const char *desc, u64 nrandom, u64 seed) {
     using Q1 = au::Quantity<U1, R1>;
@@ -95,6 +107,7 @@ __attribute__((noinline)) void run_pair(long id, const char *desc, u64 nrandom, 
     result_fact<ProdT>(id, "q*q");
     result_fact<QuotT>(id, PlainDiv ? "q/q" : "q/unblock(q)");
     result_fact<InvT>(id, "s/q");
+    result_fact<decltype(ScalarOver<R1, Q2>::of(std::declval<R1>(), std::declval<Q2>()))>(id, ScalarOver<R1, Q2>::available ? "s/q(plain)" : "s/q");
     result_fact<decltype(std::declval<Q1>() * std::declval<R2>())>(id, "q*s");
     g_st.clear();
     vf::g_inst = id;
@@ -121,11 +134,12 @@ __attribute__((noinline)) void run_pair(long id, const char *desc, u64 nrandom, 
         } else g_st.skipped++;
         if (RawOk<R1, R2>::div(a, b)) {
             auto want = a / b;
-            decltype(want) got{}, got2{};
-            VF_PHASE(vf::PH_OPERATION) { got = raw_of(Div<PlainDiv>::of(qa, qb)); got2 = raw_of(a / au::unblock_int_div(qb)); }
-            g_st.evals += 2;
+            decltype(want) got{}, got2{}, got3{};
+            VF_PHASE(vf::PH_OPERATION) { got = raw_of(Div<PlainDiv>::of(qa, qb)); got2 = raw_of(a / au::unblock_int_div(qb)); got3 = raw_of(ScalarOver<R1, Q2>::of(a, qb)); }
+            g_st.evals += 3;
             if (!vfw::same_value(got, want)) mismatch("q/q", a, b, got, want);
-            if (!vfw::same_value(got2, want)) mismatch("s/q", a, b, got2, want);
+            if (!vfw::same_value(got2, want)) mismatch("s/unblock(q)", a, b, got2, want);
+            if (!vfw::same_value(got3, want)) mismatch("s/q", a, b, got3, want);
         } else g_st.skipped++;
     });
     dump("pprod", id, desc);
